@@ -15,7 +15,11 @@ Open Scope N_scope.
 (* ---- JSON values -------------------------------------------------------- *)
 Inductive jv :=
 | JStr (s : bytes) | JInt (z : Z) | JNum (* non-integral number *) | JBool (b : bool) | JNull
-| JObj (kvs : list (bytes * jv)) | JArr (l : list jv).
+| JObj (kvs : list (bytes * jv)) | JArr (l : list jv)
+| JBig (len : Z) (content_ok : bool).
+  (* a string of [len] characters too long to hand over verbatim (the base64 of
+     a large request): the harness passes its length and whether its content
+     equals what the request's re-encoding predicts, checked outside Coq *)
 Definition jrec := list (bytes * jv).
 
 Fixpoint jv_eqb (a b : jv) : bool :=
@@ -25,6 +29,7 @@ Fixpoint jv_eqb (a b : jv) : bool :=
   | JNum, JNum => true
   | JBool x, JBool y => Bool.eqb x y
   | JNull, JNull => true
+  | JBig n a, JBig m b => Z.eqb n m && Bool.eqb a b
   | JObj x, JObj y =>
       (fix go (x y : list (bytes * jv)) : bool :=
          match x, y with
@@ -161,6 +166,18 @@ Fixpoint b64 (s : bytes) : bytes :=
       :: b64c (c mod 64) :: b64 t
   end.
 
+(* DispatchInfo.RequestData: the bytes themselves, or — for a large request —
+   only their number (content elided; base64 length is 4 * ceil(n / 3)) *)
+Inductive payload := PBytes (b : bytes) | PBig (n : N).
+
+Definition b64len (n : N) : Z := (4 * ((Z.of_N n + 2) / 3))%Z.
+Definition has_payload_p (p : payload) : bool :=
+  match p with PBytes [] => false | PBytes _ => true | PBig n => 0 <? n end.
+Definition payload_data (p : payload) : jv :=
+  match p with PBytes b => JStr (b64 b) | PBig n => JBig (b64len n) true end.
+Definition payload_len (p : payload) : Z :=
+  match p with PBytes b => Z.of_nat (length (b64 b)) | PBig n => b64len n end.
+
 (* ---- the dispatch-info record -------------------------------------------- *)
 Record auth := {
   a_principal : bytes; a_domain : bytes; a_authenticated : bool; a_claims : jrec }.
@@ -181,7 +198,7 @@ Record dinfo := {
   d_method : bytes; d_stream : bool; d_protocol : bytes; d_server_id : bytes; d_hash : bytes;
   d_request_id : bytes;          (* DispatchInfo.RequestID *)
   d_remote : bytes; d_http_status : Z;
-  d_payload : bytes;             (* DispatchInfo.RequestData *)
+  d_payload : payload;           (* DispatchInfo.RequestData *)
   d_stream_id : bytes;           (* DispatchInfo.StreamID *)
   d_fresh_sid : bytes;           (* oracle: what RandomStreamID returns if asked now *)
   d_cancelled : bool;
@@ -219,7 +236,7 @@ Definition request_id_of (d : dinfo) : bytes :=
   end.
 
 Definition nonempty (s : bytes) : bool := match s with [] => false | _ => true end.
-Definition has_payload (d : dinfo) : bool := nonempty (d_payload d).
+Definition has_payload (d : dinfo) : bool := has_payload_p (d_payload d).
 Definition a_str (d : dinfo) (f : auth -> bytes) : jv :=
   match d_auth d with Some a => JStr (f a) | None => JStr [] end.
 Definition opt_jv (o : option jv) : bool * jv :=
@@ -253,7 +270,7 @@ Definition fields (d : dinfo) : list (bool * (bytes * jv)) :=
     (true, (K_method, JStr (d_method d)));
     (true, (K_method_type, JStr (if d_stream d then al_stream else al_unary)));
     (has_payload d && negb (d_debug d),
-      (K_original_request_bytes, JInt (Z.of_nat (length (b64 (d_payload d))))));
+      (K_original_request_bytes, JInt (payload_len (d_payload d))));
     (stats_on d, (K_output_batches, stat d s_out_batches));
     (stats_on d, (K_output_bytes, stat d s_out_bytes));
     (stats_on d, (K_output_rows, stat d s_out_rows));
@@ -262,7 +279,7 @@ Definition fields (d : dinfo) : list (bool * (bytes * jv)) :=
     (true, (K_protocol_hash, JStr (d_hash d)));
     (true, (K_remote_addr, JStr (d_remote d)));
     (fst (on_egress d request_bytes), (K_request_bytes, snd (on_egress d request_bytes)));
-    (has_payload d && d_debug d, (K_request_data, JStr (b64 (d_payload d))));
+    (has_payload d && d_debug d, (K_request_data, payload_data (d_payload d)));
     (nonempty (request_id_of d), (K_request_id, JStr (request_id_of d)));
     (fst (on_egress d response_bytes), (K_response_bytes, snd (on_egress d response_bytes)));
     (true, (K_server_id, JStr (d_server_id d)));
@@ -350,10 +367,13 @@ Definition trace_ok (r : jrec) : bool :=
   | _, _ => false
   end.
 
+Definition strlike_nonempty (v : jv) : bool :=
+  match v with JStr s => nonempty s | JBig n ok => (0 <? n)%Z && ok | _ => false end.
+
 (* never both the payload and the omitted-marker; the marker comes with its size *)
 Definition payload_ok (r : jrec) : bool :=
   match lookup K_request_data r, lookup K_truncated r with
-  | Some v, None => str_sat nonempty v && negb (has K_original_request_bytes r)
+  | Some v, None => strlike_nonempty v && negb (has K_original_request_bytes r)
   | None, Some m => str_is al_payload_omitted m && req K_original_request_bytes is_count r
   | None, None => negb (has K_original_request_bytes r)
   | Some _, Some _ => false
@@ -418,7 +438,7 @@ Definition claims_ok (rd : redactor) (raw : jrec) (r : jrec) : bool :=
 Record req_env := {
   q_method : bytes; q_protocol : bytes; q_server_id : bytes; q_hash : bytes;
   q_batch_request_id : bytes;    (* vgi_rpc.request_id on the request batch *)
-  q_remote : bytes; q_payload : bytes;
+  q_remote : bytes; q_payload : payload;
   q_auth : option auth; q_err : err; q_stats : option stats;
   q_egress : option egress;
   q_debug : bool; q_server_version : bytes; q_trace : provider; q_redactor : redactor;
@@ -467,7 +487,7 @@ Definition dinfo_of (q : req_env) (stream : bool) (with_payload : bool) (sid fre
   {| d_method := q_method q; d_stream := stream; d_protocol := q_protocol q; d_server_id := q_server_id q;
      d_hash := q_hash q; d_request_id := if with_batch_id then q_batch_request_id q else [];
      d_remote := q_remote q; d_http_status := 0%Z;
-     d_payload := if with_payload then q_payload q else [];
+     d_payload := if with_payload then q_payload q else PBytes [];
      d_stream_id := sid; d_fresh_sid := fresh; d_cancelled := cancel;
      d_auth := q_auth q; d_err := q_err q; d_stats := q_stats q; d_egress := q_egress q;
      d_debug := q_debug q; d_server_version := q_server_version q; d_trace := q_trace q;
@@ -547,7 +567,7 @@ Definition dinfo_wf (d : dinfo) : bool :=
 (* a real request: the Arrow re-encoding of the request batch is non-empty,
    and over HTTP the request declared its length (Content-Length = body sent) *)
 Definition q_wf (needs_payload : bool) (q : req_env) : bool :=
-  (if needs_payload then nonempty (q_payload q) else true)
+  (if needs_payload then has_payload_p (q_payload q) else true)
   && stats_wf (q_stats q) && egress_wf (q_egress q)
   && match q_egress q with
      | Some g => (g_content_length g =? q_wire_request q)%Z && (0 <=? q_wire_request q)%Z
@@ -638,10 +658,18 @@ Definition same_sid (c : nat) (ops : list op) (all : obs) (r : jrec) : bool :=
 Definition claims_part (rd : redactor) (a : option auth) (r : jrec) : bool :=
   match a with Some a => claims_ok rd (a_claims a) r | None => negb (has K_claims r) end.
 
+(* the payload field is the base64 of the request's re-encoding (for a large
+   request: has its length and passed the content check), the omitted size is
+   that base64's length — whatever the size of the request *)
+Definition payload_described (p : payload) (r : jrec) : bool :=
+  opt K_request_data (jv_eqb (payload_data p)) r
+  && opt K_original_request_bytes (jv_eqb (JInt (payload_len p))) r.
+
 (* what a record must say given what the harness did to and measured on one request *)
 Definition describes_q (q : req_env) (needs_payload : bool) (x : obs1) (r : jrec) : bool :=
   claims_part (q_redactor q) (q_auth q) r
-  && (if needs_payload then has_payload_or_marker r else negb (has_payload_or_marker r))
+  && (if needs_payload then has_payload_or_marker r && payload_described (q_payload q) r
+      else negb (has_payload_or_marker r))
   && match q_egress q with
      | Some _ =>                                    (* HTTP: the counts are what crossed the wire *)
          req K_request_bytes (jv_eqb (JInt (q_wire_request q))) r
@@ -652,7 +680,8 @@ Definition describes_q (q : req_env) (needs_payload : bool) (x : obs1) (r : jrec
 Definition describes (ops : list op) (all : obs) (j : nat) (o : op) (x : obs1) (r : jrec) : bool :=
   match o with
   | ODirect d =>
-      claims_part (d_redactor d) (d_auth d) r && (if has_payload d then has_payload_or_marker r else true)
+      claims_part (d_redactor d) (d_auth d) r
+      && (if has_payload d then has_payload_or_marker r && payload_described (d_payload d) r else true)
   | OUnary q | OPipeStream q _ => describes_q q true x r
   | OInit _ q _ _ _ => describes_q q true x r && same_sid j ops all r
   | OCont _ c _ _ q _ _ => describes_q q false x r && same_sid c ops all r
